@@ -343,7 +343,8 @@ Fixpoint count_below (test : f64 -> bool) (cs : list Z) (ibt : list f64) : Z :=
 
 Definition write_ok (ib : list f64) (cs : list Z) (w : wout) : bool :=
   Z.eqb (w_count w) (wrap64 (sumZ cs)) &&
-  forallb (fun p => Z.eqb (snd p) (wrap64 (count_below (fun hi => entirely_below hi (fst p)) cs (tl ib))))
+  forallb (fun p => let nx := nextafter_up (fst p) in      (* entirely_below hi (fst p) = fle hi nx *)
+                    Z.eqb (snd p) (wrap64 (count_below (fun hi => fle hi nx) cs (tl ib))))
           (w_buckets w).
 
 (* what the property demands of an observed run (None = the code panicked) *)
